@@ -245,6 +245,13 @@ var c07Exprs = []struct{ what, text, msg string }{
 	{"undefined-function", "${{ @zzzfunc(github.sha) }}", "undefined function \"zzzfunc\""},
 	{"undefined-function", "${{ format('{0}', @zzzfunc()) }}", "undefined function \"zzzfunc\""},
 	{"wrong-argument-count", "${{ github.sha && @startsWith('a') }}", "number of arguments is wrong"},
+	{"argument-not-assignable", "${{ startsWith(@github.event, 'a') }}", "1st argument of function call is not assignable"},
+	{"argument-not-assignable", "${{ startsWith(github.sha, @github.event) }}", "2nd argument of function call is not assignable"},
+	{"argument-not-assignable", "${{ hashFiles('a.lock', @github.event) }}", "2nd argument of function call is not assignable"},
+	{"argument-not-assignable", "${{ hashFiles('a', 'b', @github.event) }}", "3rd argument of function call is not assignable"},
+	{"argument-not-assignable", "${{ contains(github.sha, 'x') && endsWith('a', @github.event) }}", "2nd argument of function call is not assignable"},
+	{"comparison-of-unlike-types", "${{ github.sha == 'a' && @1 < null }}", "cannot be compared to"},
+	{"undefined-property", "${{ github.sha || @github.zznosuch }}", "property \"zznosuch\" is not defined"},
 	{"object-evaluated-in-template", "@${{ fromJSON('{}') }}", "object, array, and null values should not be evaluated in template"},
 	{"object-evaluated-in-template", "${{ 'x' }} and @${{ fromJSON('[1]') }}", "object, array, and null values should not be evaluated in template"},
 }
@@ -256,7 +263,7 @@ func plant(text string) (string, int) {
 
 func TestC07(t *testing.T) {
 	hx.Main(t, "C07", func(r *hx.Run) {
-		r.Rule = "(a) exact positions: a diagnosed construct with an unambiguous offending token (lexer garbage character, parser unexpected token / end, undefined variable / function, wrong argument count, unknown key, invalid shell / permission / event / cron / glob value, `if:` without ${{ }}) is planted into a generated clean workflow by the position-recording emitter at a random leaf, after a random amount of text and 0-3 well-formed placeholders, in plain / single / double quoted style, block or flow, any indentation; at typed positions (bool / number / whole-section values) as a lone placeholder with 0-3 spaces around it inside the quotes; reported line:column must equal the recorded one. (b) shift relation: a workflow with 1-4 seeded errors of many rules is rendered twice from the same tree with different layouts; every diagnostic sitting on a key/scalar must reappear at that token's new position with the same inner offset; plus repository testdata/err files with k comment lines inserted on top. (c) bounds 1<=line<=#lines, column>=1 on everything, including double-quoted scalars with \\n escapes. Non-trivial: (a) construct at column > 1 with preceding placeholder or quoting; (b) pair whose layouts differ; distinct = text hash."
+		r.Rule = "(a) exact positions: a diagnosed construct with an unambiguous offending token (lexer garbage character, parser unexpected token / end, undefined variable / function / property, wrong argument count, unassignable 1st / 2nd / variadic argument, comparison of unlike types, unknown key, invalid shell / permission / event / cron / glob value, `if:` without ${{ }}) is planted into a generated clean workflow by the position-recording emitter at a random leaf, after a random amount of text and 0-3 well-formed placeholders, in plain / single / double quoted style, block or flow, any indentation; at typed positions (bool / number / whole-section values) as a lone placeholder with 0-3 spaces around it inside the quotes; reported line:column must equal the recorded one. (b) shift relation: a workflow with 1-4 seeded errors of many rules is rendered twice from the same tree with different layouts; every diagnostic sitting on a key/scalar must reappear at that token's new position with the same inner offset; plus repository testdata/err files with k comment lines inserted on top. (c) bounds 1<=line<=#lines, column>=1 on everything, including double-quoted scalars with \\n escapes. Non-trivial: (a) construct at column > 1 with preceding placeholder or quoting; (b) pair whose layouts differ; distinct = text hash."
 		r.Assumptions = []string{"only single-line ASCII scalars without escape sequences are used for (a) and (b), as the statement restricts", "multi-line / escaped scalars only for the bounds clause"}
 		// (a) exact positions, expressions
 		r.Check(t, "exact-expression", hx.N(2500, 60000), func(rt *rapid.T) {
